@@ -67,7 +67,7 @@ def wellIndexed (d : Decoder) : Bool :=
 
 def fieldsClosed (d : Decoder) : Bool :=
   d.fields.all (within { startAll := true, endA := true, tid := true, data := true, lookups := true,
-                         gstr := true, tpids := true, tnames := true, host := true })
+                         gstr := true, tpids := true, tnames := true, host := true, hostErrno := true })
 
 /-! ### Reflective facts about the generated table (re-checked by the kernel on every run) -/
 
@@ -204,9 +204,9 @@ theorem param_text_from_kth_start_word (d : Decoder) (hd : d ∈ decoders) (hsys
   apply evalS_congr (selFor d.key k) _ _ _ _ hin
   have hsel : (selFor d.key k).startAll = false ∧ (selFor d.key k).endA = false ∧ (selFor d.key k).tid = false
       ∧ (selFor d.key k).data = false ∧ (selFor d.key k).gstr = false ∧ (selFor d.key k).tpids = false
-      ∧ (selFor d.key k).tnames = false ∧ (selFor d.key k).fields = false := by
+      ∧ (selFor d.key k).tnames = false ∧ (selFor d.key k).fields = false ∧ (selFor d.key k).endL = [] := by
     unfold selFor; split <;> simp [paramSel]
-  obtain ⟨h1, h2, h3, h4, h5, h6, h7, h8⟩ := hsel
+  obtain ⟨h1, h2, h3, h4, h5, h6, h7, h8, h9⟩ := hsel
   constructor <;> simp_all [ctx]
 
 /-- Outside the four listed parameters, position `k` reads exactly `[k]`. -/
